@@ -381,7 +381,7 @@ class C02(Property):
     rule = ("streams: 2-3 ports, 0..4 tokens per port, tags of depth 1..3 rooted at 0 with components from {0,1,2,9,10,11} drawn from a "
             "small random tag tree (parent/child mixes across ports); flat dot, flat cartesian (depth 1-2), outer dot over an inner "
             "dot/cartesian plus plain ports; well-formed streams (per port distinct tags forming a prefix antichain; same depth for "
-            "cartesian) and non-well-formed streams (tag + own descendant on a port, duplicate tags, mixed depths). Every stream is fed "
+            "cartesian) and non-well-formed streams (tag + own descendant on a port, duplicate tags, mixed depths); plus, exhaustively, every 2-port stream with <= 2 tokens per port over the tags 0, 0.0, 0.1, 0.0.0 (121 streams). Every stream is fed "
             "to the REAL combinator in all permutations when <= 6 tokens (else a sample): the emitted multiset must equal the spec and "
             "be the same for every order (monitor); the emission *sequence* of a subset of the orders is compared with the Lean "
             "loop-faithful model (driver). Non-trivial = distinct (shape, stream) with at least one emission.")
@@ -547,6 +547,17 @@ class C02(Property):
         for shape, S in CORPUS:
             self._stream(ctx, wf, shape, S, kcap, cap(S), batch)
             ctx.corpus_replayed += 1
+        # bounded-exhaustive: every 2-port stream with at most two tokens per port over a 4-tag tree (121 streams, well-formed
+        # or not), dot product and depth-1 cartesian product, all permutations
+        small = ["0", "0.0", "0.1", "0.0.0"]
+        per_port = [()] + [(t,) for t in small] + list(itertools.combinations(small, 2))
+        for a in per_port:
+            for b in per_port:
+                S = [(0, t, 10 + i) for i, t in enumerate(a)] + [(1, t, 20 + i) for i, t in enumerate(b)]
+                self._stream(ctx, wf, {"kind": "dot", "P": 2}, S, 4, 24, batch)
+                if thorough or search or (len(a) + len(b)) % 2 == 0:
+                    self._stream(ctx, wf, {"kind": "cart", "depth": 1, "P": 2}, S, 4, 24, batch)
+        ctx.count("exhaustive-2-port-streams", len(per_port) ** 2)
         # the Lean driver must reject what it does not understand
         batch.append(("cart 0 2 0:0.0:1", "bad-op", {"kind": "proto"}, [], ()))
         batch.append(("frob 1 2", "bad-op", {"kind": "proto"}, [], ()))
